@@ -1898,7 +1898,7 @@ size_t ZSTD_estimateCStreamSize(int compressionLevel)
 ZSTD_frameProgression ZSTD_getFrameProgression(const ZSTD_CCtx* cctx)
 {
 #ifdef ZSTD_MULTITHREAD
-    if (cctx->appliedParams.nbWorkers > 0) {
+    if (cctx->appliedParams.nbWorkers > 0 && cctx->mtctx != NULL) {   /* no mtctx : context obtained by ZSTD_copyCCtx(), or whose thread pool was just changed */
         return ZSTDMT_getFrameProgression(cctx->mtctx);
     }
 #endif
@@ -1922,7 +1922,7 @@ ZSTD_frameProgression ZSTD_getFrameProgression(const ZSTD_CCtx* cctx)
 size_t ZSTD_toFlushNow(ZSTD_CCtx* cctx)
 {
 #ifdef ZSTD_MULTITHREAD
-    if (cctx->appliedParams.nbWorkers > 0) {
+    if (cctx->appliedParams.nbWorkers > 0 && cctx->mtctx != NULL) {
         return ZSTDMT_toFlushNow(cctx->mtctx);
     }
 #endif
